@@ -123,6 +123,10 @@ def cc_class(r):
     c = re.sub(r"; did you mean.*$", "", c)
     c = re.sub(r"\s*\(have .*$", "", c)
     c = re.sub(r"\s*\(first use in this function\)", "", c)
+    c = re.sub(r"; have .*$", "", c)
+    c = re.sub(r"^expected .*$", "syntax error (expected ... before ...)", c)
+    c = re.sub(r"^(invalid operands to binary) .*$", r"\1 operator", c)
+    c = re.sub(r"^(incompatible types) when .*$", r"\1", c)
     return c.strip()
 
 
@@ -276,7 +280,9 @@ def classify_native(flavor, d, vm_outcome=None, main="main.nano"):
             return Outcome("allowed", "native-run", "index-out-of-bounds", titles, err), r, n
         m = re.search(r"Assertion `(.*?)' failed", err)
         lines = [l for l in err.splitlines() if l.strip()]
-        return Outcome("stuck", "native-run", "abort: " + norm(m.group(1) if m else (lines[-1] if lines else "?")), titles, err), r, n
+        why = norm(m.group(1) if m else (lines[-1] if lines else "?"))
+        why = re.sub(r"ELEM_[A-Z0-9]+", "ELEM_x", why)
+        return Outcome("stuck", "native-run", "abort: " + why, titles, err), r, n
     if n.sig in (signal.SIGSEGV, signal.SIGBUS) and vm_outcome is not None and vm_outcome.cls in ("allowed", "skip") \
             and vm_outcome.detail in ("call-depth", "fuel"):
         return Outcome("allowed", "native-run", "stack-exhaustion(call-depth on the VM)", titles, err), r, n
